@@ -250,7 +250,12 @@ def run_scenario(sc, cfg=RUN_CONFIGS[0], two_routes=False):
         S.hyperparameters = lambda self: [dict(d) for d in decls]
     if sc["dna"]:
         s = "".join(chr(g) for g in sc["dna"])
-        S.dna = lambda self: s
+        fallback = "".join(chr(GMAX if g == GMIN else GMIN) for g in sc["dna"])
+        tf_ = cfg[1]
+        # dna() is an ordinary method: it may look at the route the strategy runs on.  It returns the scenario's DNA on
+        # its route (every route of a two-route run) and another valid DNA while the strategy does not know its route yet
+        S.dna = lambda self: s if (self.symbol in ('BTC-USDT', 'ETH-USDT') and self.timeframe == tf_
+                                   and self.exchange is not None and self.name is not None) else fallback
     explicit = None
     if sc["hasExplicit"]:
         explicit = {}
